@@ -75,7 +75,26 @@ def _work(prop, tier, base, indices, deadline, enum_cases=None):
                 res = guarded(mod.execute, item, known)
         except RunTimeout as exc:
             out["timeouts"] += 1
-            out["errors"].append("timeout %s %r: %s" % (kind, item if kind == "seed" else "case", exc))
+            case = None
+            if prop in TERMINATION_PROPS:
+                # the property promises termination: a run that does not return is a violation,
+                # replayable from its case (which the check can name without running it)
+                if kind == "case":
+                    case = item
+                elif hasattr(mod, "generate_case"):
+                    try:
+                        case = guarded(mod.generate_case, rs, tier)
+                    except Exception:
+                        case = None
+            if case is not None:
+                sig = "%s|timeout|" % TERMINATION_PROPS[prop]
+                out["violations"].append({"signature": sig, "case": case, "timeout": True,
+                                          "violation": {"monitor": TERMINATION_PROPS[prop], "signature": sig,
+                                                        "message": "the run did not return within %d s" % RUN_TIMEOUT,
+                                                        "step": 0, "op": {"op": "run"}, "labels": [],
+                                                        "outcome": ["hang"]}})
+            else:
+                out["errors"].append("timeout %s %r: %s" % (kind, item if kind == "seed" else "case", exc))
             continue
         except Exception:
             out["errors"].append("%s %r: %s" % (kind, item if kind == "seed" else
@@ -213,7 +232,13 @@ def run_check(prop, tier="quick", base=0, jobs=None, budget=None, runs=None, out
             try:
                 case, res = replay_file(path, known=None)
             except RunTimeout as exc:
-                harness_errors.append("regression %s: %s" % (name, exc))
+                if prop in TERMINATION_PROPS:
+                    sig = "%s|timeout|" % TERMINATION_PROPS[prop]
+                    vio = {"monitor": TERMINATION_PROPS[prop], "signature": sig,
+                           "message": "replaying %s did not return within %d s" % (name, RUN_TIMEOUT)}
+                    violations.append((sig, vio, None, path))
+                else:
+                    harness_errors.append("regression %s: %s" % (name, exc))
                 continue
             except Exception:
                 harness_errors.append("regression %s: %s" % (name, traceback.format_exc()))
@@ -296,6 +321,17 @@ def run_check(prop, tier="quick", base=0, jobs=None, budget=None, runs=None, out
             continue
         if item["case"] is None:
             harness_errors.append("unreplayable: %s" % item["violation"]["message"])
+            continue
+        if item.get("timeout"):
+            try:
+                path = write_replay(prop, item["case"], item["violation"], "timeout")
+                fsig, fdig = fresh_replay(path)
+                if fsig != sig:
+                    harness_errors.append("the run that did not return does so on replay: %s" % path)
+                    continue
+                violations.append((sig, item["violation"], item["case"], path))
+            except Exception:
+                harness_errors.append("confirming timeout %s: %s" % (sig, traceback.format_exc()))
             continue
         try:
             small = mod.shrink(item["case"], sig) if hasattr(mod, "shrink") else \
